@@ -18,6 +18,8 @@ import NdnVerif.C18.LemmasSP
 import NdnVerif.C18.Spec
 import NdnVerif.C18.LemmasConv
 import NdnVerif.C18.LemmasLoss
+import NdnVerif.C18.LemmasAsync
+import NdnVerif.C18.AsyncFacts
 namespace Ndn.C18
 
 /-- the regenerated constant is the protocol's infinity metric -/
@@ -267,5 +269,92 @@ example : let net := ((Net.start exIds).run (exRound ++ exRound ++ exRound)).dea
     router 2 directly although router 1 has the smaller key (cost decides before the key) -/
 example : let net := (Net.start exIds).run (exRound ++ exRound ++ exRound)
     (net.best 3 40, net.nextHop 3 40, net.best 0 30, net.nextHop 0 30) = (2, 30, 1, 30) := by decide
+
+/-! ### the machinery that decides WHEN advertisements travel, under every interleaving
+
+  `Async.lean`: one directed link w → u as a transition system whose steps are the router functions that run
+  under `dv.mutex` (advertSyncNotifyNew, advertSyncOnInterest, advertDataFetch's guard, advertDataOnInterest,
+  advertDataHandler, ribUpdate(ns), fibUpdate, checkDeadNeighbors) and whose pending tasks are the goroutines
+  they spawn.  The scheduler is arbitrary: any pending goroutine may run next, any packet in flight may be
+  delivered, duplicated or lost, the RIB of w may change again at any moment.  These theorems replace the
+  hypothesis "the schedule is fair" of `converges_within_rounds` by facts about the code that produces it. -/
+
+/-- The task structure the model assumes is the one of the current source: which router methods take `dv.mutex`,
+    which goroutines they spawn and what those call, where `advertSyncSeq` is incremented — re-extracted from
+    dv/dv/*.go by `dvgen` (go/ast) on every run. A propagation pass that is no longer spawned per change, a
+    handler that stops spawning the fetch or the update, a method that drops the mutex: this stops checking. -/
+theorem async_model_matches_source_structure : Ndn.Gen.C18Async.facts = Async.expectedFacts := by decide
+
+open Async in
+/-- **Nothing is forgotten.**  For EVERY history of steps from start-up (any interleaving of goroutines, any
+    loss, duplication, reordering, time-outs, dead sweeps): whenever nothing is pending — no spawned goroutine
+    waits, no packet is in flight — and u has heard w's current sequence number, u's RIB was computed from w's
+    CURRENT advertisement (not an older one), and w's FIB from w's current RIB.  A change of w's RIB that is
+    never announced, an advertisement fetched too early and never re-fetched, a stale reply overwriting a newer
+    one: each would falsify this. -/
+theorem quiescent_link_is_synced (s0 : Nat) (h0 : 1 ≤ s0) (steps : List Step) :
+    let st := run (init s0) steps
+    Quiescent st → Heard st → st.applied = some st.ver ∧ st.fibVer = st.ver := by
+  intro st q hd
+  have := quiescent_heard (inv_run (inv_init s0 h0) steps) q hd
+  exact ⟨this.1, this.2.1⟩
+
+open Async in
+/-- two RIB changes whose propagation goroutines interleave with a fetch that was answered between them -/
+def Async.exBurst : St := run (init 5) [.change, .runFib, .change, .runNotify, .runSend, .deliverSync 0 false, .runFetch 0,
+  .serve 0 true, .runFib, .deliverData 0 false, .runNotify, .runSend, .serve 0 false, .deliverData 0 false,
+  .deliverSync 0 false, .runFetch 0, .serve 0 false, .runRib, .deliverData 0 false, .runRib, .runRib]
+
+open Async in
+example : Quiescent exBurst ∧ Heard exBurst ∧ exBurst.ver = 2 ∧ exBurst.applied = some 2 := by decide
+
+open Async in
+/-- **One heartbeat suffices.**  From ANY reachable state, once w has sent one more heartbeat (its periodic Sync
+    Interest), then — as long as no Sync Interest is lost and u does not declare w dead afterwards; advertisement
+    Interests and Data may still be lost, duplicated and time out, goroutines may interleave in any way, w's RIB
+    may keep changing — every quiescent state that follows has u on w's current advertisement. -/
+theorem synced_after_heartbeat (s0 : Nat) (h0 : 1 ≤ s0) (pre post : List Step)
+    (nf : ∀ s ∈ post, s.fault = false) :
+    let st := run (run (init s0) pre) (.heartbeat :: post)
+    Quiescent st → Heard st ∧ st.applied = some st.ver ∧ st.fibVer = st.ver := by
+  intro st q
+  have hi : Inv (step (run (init s0) pre) .heartbeat) := inv_step (inv_run (inv_init s0 h0) pre) _
+  have ha : Announced st := announced_run hi (announced_heartbeat _) post nf
+  have hd := announced_quiescent ha q
+  have := quiescent_heard (inv_run hi post) q hd
+  exact ⟨hd, this.1, this.2.1⟩
+
+open Async in
+/-- the announcement of a change is lost; after the heartbeat the fetch times out once and its Data is lost once -/
+def Async.exLossy : St := run (run (init 5) [.change, .runFib, .runNotify, .runSend, .dropSync 0])
+  (.heartbeat :: [.deliverSync 0 false, .runFetch 0, .timeoutReq 0, .runFetch 0, .serve 0 false, .loseData 0,
+    .runFetch 0, .serve 0 false, .deliverData 0 false, .runRib])
+
+open Async in
+example : Quiescent exLossy ∧ exLossy.applied = some 1 := by decide
+
+open Async in
+/-- **Pending work drains.**  Such a run takes at most `work st` steps (so bursts of changes cannot keep the link
+    busy for ever), and as long as the state is not quiescent there is a step to take: left alone, the link
+    always reaches a quiescent state. -/
+theorem pending_work_drains (st : St) :
+    (∀ steps, drains st steps = true → steps.length + work (run st steps) ≤ work st) ∧
+    (¬ Quiescent st → ∃ s : Step, s.internal = true ∧ s.enabled st = true) := by
+  refine ⟨?_, busy_has_step st⟩
+  intro steps
+  induction steps generalizing st with
+  | nil => intro _; simp [run]
+  | cons s t ih =>
+    intro hd
+    simp only [drains, Bool.and_eq_true] at hd
+    obtain ⟨⟨hi, he⟩, ht⟩ := hd
+    have := ih (step st s) ht
+    have := work_decreases st s hi he
+    simp only [run, List.foldl_cons, List.length_cons] at *
+    omega
+
+open Async in
+example : drains (run (init 5) [.change, .change]) [.runFib, .runFib, .runNotify, .runNotify, .runSend, .runSend] = true ∧
+    work (run (init 5) [.change, .change]) = 18 := by decide
 
 end Ndn.C18
